@@ -666,3 +666,74 @@ func c05AgainAfterSuccess(in *gwproc.Inst, r c05Req, pass, type1 string, subset 
 func rapid_unknownUser(u string) string {
 	return []string{"administrator", "root", "nobody", "Administrator"}[atoi(u)%4]
 }
+
+// ---- concurrent logins: the tunnel's user is the one confirmed for this very request ----
+
+type c05Conc struct {
+	Users   []string `json:"users"`    // one websocket request each, all at once, correct passwords
+	Wrong   []string `json:"intruders"` // further concurrent requests with a wrong password for these names
+	DelayMs int      `json:"backend_delay_ms"`
+}
+
+func TestC05_CONC(t *testing.T) {
+	runProp(t, "C05_CONC", func(t *rapid.T) c05Conc {
+		c := c05Conc{DelayMs: rapid.SampledFrom([]int{0, 1, 3, 10}).Draw(t, "delay")}
+		n := rapid.IntRange(2, 8).Draw(t, "n")
+		for i := 0; i < n; i++ {
+			c.Users = append(c.Users, strconv.Itoa(1+(i+rapid.IntRange(0, 8).Draw(t, "u"))%9))
+		}
+		for i, m := 0, rapid.IntRange(0, 4).Draw(t, "m"); i < m; i++ {
+			c.Wrong = append(c.Wrong, strconv.Itoa(rapid.IntRange(1, 9).Draw(t, "w")))
+		}
+		return c
+	}, func(c c05Conc) (bool, []string) { return true, nil }, func(c c05Conc) *Violation {
+		in, err := c05Instance([]string{"local"})
+		if err != nil {
+			return viol("bin/start", "%v", err)
+		}
+		svc := c05Auth()
+		svc.BasicDelay.Store(int64(c.DelayMs) * int64(time.Millisecond))
+		defer svc.BasicDelay.Store(0)
+		g := theGrid()
+		errs := make(chan string, len(c.Users)+len(c.Wrong))
+		var wg sync.WaitGroup
+		start := make(chan struct{})
+		for _, u := range c.Wrong {
+			wg.Add(1)
+			go func(u string) {
+				defer wg.Done()
+				<-start
+				_, conn, _, _, _ := rawExchange(in, "RDG_OUT_DATA", true, [][]string{{basicHeader(u, "not-the-password")}})
+				if conn != nil {
+					conn.Close()
+					errs <- fmt.Sprintf("a wrong password for user %s reached the tunnel handler", u)
+				}
+			}(u)
+		}
+		for _, u := range c.Users {
+			wg.Add(1)
+			go func(u string) {
+				defer wg.Done()
+				<-start
+				heads, conn, br, _, xerr := rawExchange(in, "RDG_OUT_DATA", true, [][]string{{basicHeader(u, c05Password(u))}})
+				if conn == nil {
+					errs <- fmt.Sprintf("correct credentials of user %s did not reach the tunnel handler: %v %v", u, headCodes(heads), xerr)
+					return
+				}
+				defer conn.Close()
+				// the tunnel runs as u: u's own host is reachable ...
+				if res := probeChannel(conn, br, "127.0.0."+u, g.P); res != 1 {
+					errs <- fmt.Sprintf("confirmed as user %s, but the channel to that user's own host 127.0.0.%s was refused: the tunnel runs under another name", u, u)
+				}
+			}(u)
+		}
+		close(start)
+		wg.Wait()
+		select {
+		case e := <-errs:
+			return viol("c05/user-binding/concurrent", "%s (%d correct and %d wrong logins at once, backend delay %d ms)", e, len(c.Users), len(c.Wrong), c.DelayMs)
+		default:
+		}
+		return binHealthQuick(in)
+	})
+}
